@@ -236,6 +236,15 @@ def _formulas(prog: Program, run: Run) -> None:
             s = ast.unparse(a[-1].value) if a else ""
             ok = (helper is None and s == val) or (helper is not None and helper in s and
                                                    s.endswith(f"({val})"))
+            if not ok and helper is not None:
+                # one parametrised helper (`__encode_bcd(value, bits_per_digit=4)`) or the digit
+                # loop written in place: the width per digit is checked by _bcd
+                call_ok = bool(a) and isinstance(a[-1].value, ast.Call) and "bcd" in (
+                    call_name(a[-1].value) or "") and a[-1].value.args and ast.unparse(
+                        a[-1].value.args[0]) == val
+                loop_ok = any(isinstance(x, ast.While) and _bcd_loop(x) is not None
+                              for s_ in ub[key[0]] for x in ast.walk(s_))
+                ok = call_ok or loop_ok
             if ok:
                 run.ok(R, f.qual, f"A_UINT32/{enc}: {tgt} = {s}", f.loc)
             else:
@@ -245,34 +254,101 @@ def _formulas(prog: Program, run: Run) -> None:
                               f.loc)
 
 
+def _bcd_loop(loop: ast.While):
+    """('enc'|'dec', step expression text) when the loop is a BCD digit loop, else None.
+    enc: R |= (V % 10) << S ; S += step ; V //= 10      dec: R += (V & 15) * F ; F *= 10 ; V >>= step
+    (recognised by operators and operands, whatever the variables are called)"""
+    augs = [x for x in ast.walk(loop) if isinstance(x, ast.AugAssign)]
+    by_op = {}
+    for x in augs:
+        by_op.setdefault(type(x.op).__name__, []).append(x)
+    floordiv = [x for x in by_op.get("FloorDiv", []) if ast.unparse(x.value) == "10"]
+    if floordiv and by_op.get("BitOr"):
+        v = ast.unparse(floordiv[0].target)
+        for o in by_op["BitOr"]:
+            val = o.value
+            if isinstance(val, ast.BinOp) and isinstance(val.op, ast.LShift) and \
+                    " ".join(ast.unparse(val.left).split()) in (f"{v} % 10", f"({v} % 10)"):
+                sh = ast.unparse(val.right)
+                adds = [x for x in by_op.get("Add", []) if ast.unparse(x.target) == sh]
+                if adds:
+                    return "enc", ast.unparse(adds[0].value)
+    mult = [x for x in by_op.get("Mult", []) if ast.unparse(x.value) == "10"]
+    if mult and by_op.get("RShift"):
+        fct = ast.unparse(mult[0].target)
+        for rs in by_op["RShift"]:
+            v = ast.unparse(rs.target)
+            for o in by_op.get("Add", []):
+                t_ = " ".join(ast.unparse(o.value).split())
+                if t_ in (f"({v} & 15) * {fct}", f"{fct} * ({v} & 15)"):
+                    return "dec", ast.unparse(rs.value)
+    return None
+
+
 def _bcd(prog: Program, run: Run) -> None:
+    """Packed BCD moves 4 bits per decimal digit, unpacked BCD 8 -- wherever the digit loop
+    lives (private helper per flavour, one parametrised helper, or inline)."""
     R = "C02.R1"
-    spec = {"__encode_bcd_p": ("EncodeState", 4), "__encode_bcd_up": ("EncodeState", 8),
-            "__decode_bcd_p": ("DecodeState", 4), "__decode_bcd_up": ("DecodeState", 8)}
-    for nm, (cls, step) in spec.items():
-        f = prog.cls(cls).methods.get(nm)
-        if f is None:
-            raise AnalysisError(f"{cls}.{nm} not found")
-        s = ast.unparse(f.node)
-        augs = [x for x in walk_no_nested(f.node) if isinstance(x, ast.AugAssign)]
-        consts = {(type(x.op).__name__, ast.unparse(x.target)): ast.unparse(x.value) for x in augs}
-        C = f"{cls}.{nm}"
-        if "encode" in nm:
-            ok = consts.get(("Add", "shift")) == str(step) and consts.get(
-                ("FloorDiv", "value")) == "10" and consts.get(("BitOr", "result")) in (
-                    "value % 10 << shift", "(value % 10) << shift")
-            what = f"digit = value % 10 placed at shift, shift += {step}, value //= 10"
-        else:
-            ok = consts.get(("RShift", "value")) == str(step) and consts.get(
-                ("Mult", "factor")) == "10" and consts.get(("Add", "result")) in (
-                    "(value & 15) * factor", "(value & 0xf) * factor")
-            what = f"digit = value & 0xf times factor, factor *= 10, value >>= {step}"
-        if ok:
-            run.ok(R, C, what, f.loc)
-        else:
-            run.violation(R, C, "bcd-loop",
-                          f"the BCD digit loop is not `{what}` (found {consts}): packed BCD uses "
-                          "4 bits per decimal digit, unpacked BCD 8", f.loc)
+    for cls, main, want_kind in (("EncodeState", "emplace_atomic_value", "enc"),
+                                 ("DecodeState", "extract_atomic_value", "dec")):
+        ci = prog.cls(cls)
+        mf = ci.methods[main]
+        mcfg = CFG(mf.node)
+        found = {"BCD_P": [], "BCD_UP": []}
+
+        def flavour(conds) -> Optional[str]:
+            txt = " ".join(ast.unparse(t) for t, pol in conds if pol)
+            if "Encoding.BCD_UP" in txt and "Encoding.BCD_P" not in txt.replace(
+                    "Encoding.BCD_UP", ""):
+                return "BCD_UP"
+            if "Encoding.BCD_P" in txt.replace("Encoding.BCD_UP", ""):
+                return "BCD_P" if "Encoding.BCD_UP" not in txt else None
+            return None
+        # loops written inline in the main function
+        for lp in [x for x in walk_no_nested(mf.node) if isinstance(x, ast.While)]:
+            k = _bcd_loop(lp)
+            if k and k[0] == want_kind:
+                fl = flavour(mcfg.branch_conditions(mcfg.node_of(lp)))
+                if fl:
+                    found[fl].append((k[1], f"{mf.module.rel}:{lp.lineno}"))
+        # loops in helpers, attributed through the call sites
+        for nm, h in ci.methods.items():
+            if h is mf:
+                continue
+            for lp in [x for x in walk_no_nested(h.node) if isinstance(x, ast.While)]:
+                k = _bcd_loop(lp)
+                if not k or k[0] != want_kind:
+                    continue
+                params = h.params()
+                for c in [x for x in walk_no_nested(mf.node) if isinstance(x, ast.Call) and
+                          isinstance(x.func, ast.Attribute) and x.func.attr in (
+                              nm, f"_{cls}{nm}")]:
+                    fl = flavour(mcfg.branch_conditions(mcfg.node_of(_stmt_of(mf.node, c))))
+                    step = k[1]
+                    if step in params:
+                        bound = {kw.arg: ast.unparse(kw.value) for kw in c.keywords if kw.arg}
+                        pos = [p_ for p_ in params if p_ not in ("self", "cls")]
+                        for p_, a_ in zip(pos, c.args):
+                            bound[p_] = ast.unparse(a_)
+                        step = bound.get(step, step)
+                    if fl:
+                        found[fl].append((step, f"{h.module.rel}:{lp.lineno}"))
+        for fl, want_step in (("BCD_P", "4"), ("BCD_UP", "8")):
+            C = f"{cls}.{main}/{fl}"
+            if not found[fl]:
+                run.violation(R, C, "bcd-loop",
+                              f"no {'encoding' if want_kind == 'enc' else 'decoding'} digit loop "
+                              f"is reached for {fl}", mf.loc)
+                continue
+            bad = [(s_, l_) for s_, l_ in found[fl] if s_ != want_step]
+            if bad:
+                run.violation(R, C, "bcd-loop",
+                              f"{fl}: the digit loop moves `{bad[0][0]}` bits per decimal digit, "
+                              f"must be {want_step} (packed BCD uses 4 bits per digit, unpacked "
+                              "BCD 8)", bad[0][1])
+            else:
+                run.ok(R, C, f"{fl}: {want_step} bits per decimal digit "
+                       f"({len(found[fl])} site(s))", found[fl][0][1])
 
 
 # ----------------------------------------------------------------------- R2
